@@ -106,6 +106,41 @@ def c11_pda(X, R, kind, n=3):
     return fails
 
 
+def c11_converter(n_states, n_symbols, shuffle):
+    """run-time check of the contract of pda.cfg_variable_converter.CFGVariableConverter (what contracts/cfg_conv.py proves): different triples of
+    registered states / symbols get different variables, the same triple always the same one, whatever objects (equal copies, objects indexed
+    by an earlier converter) the triple is given with"""
+    import random as _r
+    from pyformlang.pda.cfg_variable_converter import CFGVariableConverter
+    from pyformlang.finite_automaton import State
+    from pyformlang.cfg import Variable
+    fails = []; rng = _r.Random(shuffle)
+    states = [State(f's{i}') for i in range(n_states)]; symbols = [Variable(f'V{i}') for i in range(n_symbols)]
+    rng.shuffle(states); rng.shuffle(symbols)
+    earlier = CFGVariableConverter(list(reversed(states)), list(reversed(symbols)))          # leaves its indices on the objects
+    copies = {s.value: State(s.value) for s in states}
+    for s in states: earlier.to_cfg_combined_variable(copies[s.value], symbols[0], copies[s.value])          # ... and on equal copies
+    conv = CFGVariableConverter(states, symbols)
+    def run():
+        seen = {}
+        triples = [(p, x, q) for p in states for x in symbols for q in states]
+        if len(triples) > 3000: triples = rng.sample(triples, 3000)
+        for (p, x, q) in triples:
+            v = conv.to_cfg_combined_variable(rng.choice([p, copies[p.value]]), x, rng.choice([q, copies[q.value]]))
+            if not isinstance(v, Variable): return f'{(p.value, x.value, q.value)}: not a Variable: {v!r}'
+            if v in seen and seen[v] != (p.value, x.value, q.value): return f'{seen[v]} and {(p.value, x.value, q.value)} share the variable {v!r}'
+            seen[v] = (p.value, x.value, q.value)
+        for (p, x, q) in rng.sample(triples, min(200, len(triples))):
+            v = conv.to_cfg_combined_variable(copies[p.value], x, q)
+            if seen.get(v) != (p.value, x.value, q.value): return f'{(p.value, x.value, q.value)} asked again: another variable ({v!r})'
+            conv.set_valid(p, x, copies[q.value])
+            if conv.is_valid_and_get(copies[p.value], x, q) != v: return f'{(p.value, x.value, q.value)}: is_valid_and_get after set_valid gives another variable'
+        return None
+    ok, msg = guarded('C11.converter', run, fails)
+    if ok and msg: fails.append(fail('C11.converter.injective', msg))
+    return fails
+
+
 def c11_types():
     fails = []
     g = C.build(C.mk(C.V('S'), [(C.V('S'), (C.T('a'),))])); p = P.build(P.mk('q', 'Z', ['q'], [('q', 'a', 'Z', 'q', ('Z',))]))
